@@ -13,7 +13,7 @@ ANCHORS = ["src/pylife/materiallaws/rambgood.py", "src/pylife/materiallaws/hooke
            "src/pylife/materiallaws/true_stress_strain.py"]
 SHARDS = {"quick": 4, "thorough": 16}
 WATCHDOG = {"quick": 900, "thorough": 3000}
-REQUIRED_CLASSES = {t: ["ro:n<0.08", "ro:n>0.3", "ro:strain>0.02", "ro:elastic", "ro:negative", "ro:scalar", "ro:array",
+REQUIRED_CLASSES = {t: ["ro:n<0.08", "ro:n>0.3", "ro:n>0.5", "ro:zero_in_array", "ro:strain>0.02", "ro:elastic", "ro:negative", "ro:scalar", "ro:array",
                         "hooke:nu<0", "hooke:nu>0.45", "hooke:1d", "hooke:plane_stress", "hooke:plane_strain", "hooke:3d", "true:negative"]
                     for t in ("quick", "thorough")}
 REQUIRED_MONITORS = ["ro:strain==formula", "ro:stress(strain(s))==s", "ro:strain(stress(e))==e", "ro:odd", "ro:strictly_increasing",
@@ -50,7 +50,8 @@ def generate(ctx):
         c = {"kind": kind, "rseed": int(rng.integers(0, 2**31))}
         if kind == "ro":
             r = rng.random()
-            nn = float(rng.uniform(0.04, 0.08)) if r < 0.3 else (float(rng.uniform(0.3, 0.45)) if r < 0.45 else float(rng.uniform(0.08, 0.3)))
+            nn = float(rng.uniform(0.04, 0.08)) if r < 0.3 else (float(rng.uniform(0.3, 0.45)) if r < 0.4 else (
+                float(rng.uniform(0.5, 0.95)) if r < 0.55 else float(rng.uniform(0.08, 0.3))))
             c.update(E=float(rng.uniform(50e3, 250e3)), K=float(rng.uniform(200, 4000)), n=nn)
         elif kind == "hooke":
             r = rng.random()
@@ -73,8 +74,12 @@ def _ro(case, ctx, rng):
     if n > 0.3:
         ctx.tag("ro:n>0.3")
     # arguments through the strain: |eps| <= 0.1
-    eps = np.sort(np.concatenate([10 ** rng.uniform(-6, -1, 8), [1e-7]]))
+    eps = np.sort(np.concatenate([10 ** rng.uniform(-6, -1, 8), [1e-7], [0.0]]))       # the unloaded state is part of every history
     eps_signed = eps * rng.choice([-1.0, 1.0], len(eps))
+    eps_signed[0] = 0.0
+    ctx.tag("ro:zero_in_array")
+    if n > 0.5:
+        ctx.tag("ro:n>0.5")
     if (eps > 0.02).any():
         ctx.tag("ro:strain>0.02")
     ctx.tag("ro:elastic", "ro:negative", "ro:array")
@@ -90,13 +95,14 @@ def _ro(case, ctx, rng):
         return
     back = np.asarray(ro.strain(sig), dtype=float)
     plastic_share = 1 - np.abs(sig / E) / np.maximum(np.abs(back), 1e-300)
-    ctx.nontrivial(bool((plastic_share > 0.01).any()))
+    ctx.nontrivial(bool((plastic_share[np.abs(back) > 0] > 0.01).any()))
     ctx.check("ro:strain(stress(e))==e", _close(back, eps_signed, 4e-9, 1e-16), observed=back, expected=eps_signed, tags=mech,
               detail={"E": E, "K": K, "n": n, "newton_warned": warned})
     ref = np.array([N.ro_strain(float(s), E, K, n) for s in sig])
     ctx.check("ro:strain==formula", _close(back, ref, 1e-12, 1e-300), observed=back, expected=ref)
     ok_sig = np.isfinite(sig) & (np.abs(back - eps_signed) <= 4e-9 * np.abs(eps_signed) + 1e-16)
     s_ok = np.abs(sig[ok_sig])
+    s_ok = s_ok[s_ok > 0]
     if len(s_ok) >= 2:
         s2 = np.asarray(ro.stress(np.asarray(ro.strain(s_ok)), rtol=tol, tol=tol), dtype=float)
         ctx.check("ro:stress(strain(s))==s", _close(s2, s_ok, 4e-9 / max(n, 0.04), 4e-10), observed=s2, expected=s_ok, tags=mech)
